@@ -399,7 +399,7 @@ def check_any_scalar(case: str, ctx: Ctx) -> None:
 
 
 def misc_cases(shard: int, nshards: int) -> t.Iterator[t.Any]:
-    for (i, c) in enumerate([*ANY_SCALAR, 'scalar-handler-without-serializer:call', 'scalar-handler-without-serializer:class', 'one-handler-two-roles:enclosing-first', 'one-handler-two-roles:call-first', 'enum-values:call', 'enum-values:class', 'mapping-not-empty-tuple', 'mapping-not-subclass', 'mapping-not-parameterised', 'global-not-for-int', 'global-before-sequence', 'global-after-protocol',
+    for (i, c) in enumerate([*ANY_SCALAR, 'scalar-handler-without-serializer:call', 'scalar-handler-without-serializer:class', 'three-levels-shared-handlers', 'one-handler-two-roles:enclosing-first', 'one-handler-two-roles:call-first', 'enum-values:call', 'enum-values:class', 'mapping-not-empty-tuple', 'mapping-not-subclass', 'mapping-not-parameterised', 'global-not-for-int', 'global-before-sequence', 'global-after-protocol',
                              'global-before-builtin-list', 'global-before-builtin-dict', 'global-before-builtin-tuple', 'global-nested-in-dataclass']):
         if i % nshards == shard:
             yield c
@@ -482,6 +482,31 @@ def check_misc(case: str, ctx: Ctx) -> None:
                 ctx.fail('both-directions', f"{case.split(':')[0]}:{type(r).__name__ if k != 'ok' else 'value'}", f"{case}: {what} under a handler {{int: <converter without into_data>}} gave "
                          f"{short(r, 80) if k == 'ok' else type(r).__name__ + ': ' + str(r)[:150]}; expected {want if want is not pane.ConvertError else 'ConvertError'}")
                 return
+        return
+    if case == 'three-levels-shared-handlers':
+        # Top > Mid > Leaf, where Top and Leaf inherit the very same custom= from a common base and Mid, in between, has handlers of
+        # its own for the type: each class's own (or inherited) handlers come first for its own fields - Leaf's are Leaf's, although
+        # the same objects already came along from Top
+        M = type('M', (), {})
+        (bconv, mconv) = (_label_conv('B'), _label_conv('Mid'))
+        Base = type('SharedBase', (pane.PaneBase,), {'__annotations__': {}}, custom={M: bconv})
+        Leaf = type('Leaf', (Base,), {'__annotations__': {'v': M}})
+        Mid = type('Mid', (pane.PaneBase,), {'__annotations__': {'leaf': Leaf, 'w': M, 'leaves': t.List[t.Optional[Leaf]]}}, custom={M: mconv})
+        Top = type('Top', (Base,), {'__annotations__': {'mid': Mid, 'u': M}})
+        _KEEP.extend([M, Base, Leaf, Mid, Top])
+        data = {'mid': {'leaf': {'v': 7}, 'w': 7, 'leaves': [{'v': 7}, None]}, 'u': 7}
+        ctx.evaluated()
+        (k, r) = outcome(lambda: pane.from_data(data, Top))
+        got = (r.u.source, r.mid.w.source, r.mid.leaf.v.source, r.mid.leaves[0].v.source) if k == 'ok' else r
+        if got != ('B', 'Mid', 'B', 'B'):
+            ctx.fail('precedence', 'three-levels-shared-handlers:from', f"Top(SharedBase) > Mid(custom=own) > Leaf(SharedBase): sources of (top.u, mid.w, mid.leaf.v, mid.leaves[0].v) = {got!r}; "
+                     f"expected ('B', 'Mid', 'B', 'B')")
+            return
+        x = Top.make_unchecked(mid=Mid.make_unchecked(leaf=Leaf.make_unchecked(v=Labeled('x', 7)), w=Labeled('x', 7), leaves=[Leaf.make_unchecked(v=Labeled('x', 7)), None]), u=Labeled('x', 7))
+        (k, d) = outcome(lambda: pane.into_data(x, Top))
+        got = (d['u'], d['mid']['w'], d['mid']['leaf']['v'], d['mid']['leaves'][0]['v']) if k == 'ok' else d
+        if got != ('B-out', 'Mid-out', 'B-out', 'B-out'):
+            ctx.fail('precedence-into', 'three-levels-shared-handlers', f"the same on output: {got!r}; expected ('B-out', 'Mid-out', 'B-out', 'B-out')")
         return
     if case.startswith('one-handler-two-roles'):
         # one handler object (callable form) serves as the custom= of an enclosing dataclass and, in another conversion, as the custom=
